@@ -59,6 +59,7 @@ var nonIdemStmts = []string{
 const prepIdem = "INSERT INTO ks.tbl (k, v) VALUES (?, 1)"
 const prepNonIdem = "INSERT INTO ks.tbl (k, v) VALUES (?, now())"
 const prepSelect = "SELECT v FROM ks.tbl WHERE k = ?"
+const prepUnknown = "INSERT INTO ks.other (k, v) VALUES (?, 2)" // prepared on the backend only: the proxy never saw its PREPARE
 
 type reqRun struct {
 	e          *env.Env
@@ -140,6 +141,11 @@ func (rr *reqRun) buildFrame(sc *reqScenario, tok string, stream int16, version 
 		stmt := prepIdem
 		if !sc.Idem {
 			stmt = prepNonIdem
+			if rr.intn(4) == 0 {
+				// an id the proxy has never seen prepared is not positively idempotent (and not in its cache)
+				return frame.NewFrame(version, stream, &message.Execute{QueryId: rr.ids[prepUnknown], ResultMetadataId: rr.ids[prepUnknown],
+					Options: &message.QueryOptions{Consistency: cl, PositionalValues: []*primitive.Value{primitive.NewValue([]byte(tok))}}}), "EXECUTE", false
+			}
 		}
 		return frame.NewFrame(version, stream, &message.Execute{QueryId: rr.ids[stmt], ResultMetadataId: rr.ids[stmt],
 			Options: &message.QueryOptions{Consistency: cl, PositionalValues: []*primitive.Value{primitive.NewValue([]byte(tok))}}}), "EXECUTE", true
@@ -151,16 +157,39 @@ func (rr *reqRun) buildFrame(sc *reqScenario, tok string, stream int16, version 
 				{Id: rr.ids[prepIdem], Values: []*primitive.Value{primitive.NewValue([]byte("v"))}},
 			}
 		} else {
-			switch rr.intn(3) {
-			case 0: // non-idempotent child last
+			switch rr.intn(7) {
+			case 0: // non-idempotent prepared child last
 				children = []*message.BatchChild{
 					{Query: fmt.Sprintf(idemStmts[1], tok)},
 					{Id: rr.ids[prepNonIdem], Values: []*primitive.Value{primitive.NewValue([]byte("v"))}},
 				}
-			case 1:
+			case 1: // non-idempotent string child last
 				children = []*message.BatchChild{
 					{Id: rr.ids[prepIdem], Values: []*primitive.Value{primitive.NewValue([]byte(tok))}},
 					{Query: "UPDATE ks.tbl SET c = c + 1 WHERE k = 'z'"},
+				}
+			case 2: // non-idempotent prepared child first, idempotent children after it
+				children = []*message.BatchChild{
+					{Id: rr.ids[prepNonIdem], Values: []*primitive.Value{primitive.NewValue([]byte(tok))}},
+					{Id: rr.ids[prepIdem], Values: []*primitive.Value{primitive.NewValue([]byte("v"))}},
+					{Query: "INSERT INTO ks.tbl (k, v) VALUES ('w', 1)"},
+				}
+			case 3: // non-idempotent prepared child in the middle
+				children = []*message.BatchChild{
+					{Query: fmt.Sprintf(idemStmts[1], tok)},
+					{Id: rr.ids[prepNonIdem], Values: []*primitive.Value{primitive.NewValue([]byte("v"))}},
+					{Id: rr.ids[prepIdem], Values: []*primitive.Value{primitive.NewValue([]byte("v"))}},
+				}
+			case 4: // non-idempotent string child first
+				children = []*message.BatchChild{
+					{Query: fmt.Sprintf(nonIdemStmts[0], tok)},
+					{Id: rr.ids[prepIdem], Values: []*primitive.Value{primitive.NewValue([]byte("v"))}},
+				}
+			case 5: // non-idempotent string child in the middle
+				children = []*message.BatchChild{
+					{Query: "INSERT INTO ks.tbl (k, v) VALUES ('w', 1)"},
+					{Query: fmt.Sprintf(nonIdemStmts[3], tok)},
+					{Query: "INSERT INTO ks.tbl (k, v) VALUES ('x', 2)"},
 				}
 			default:
 				children = []*message.BatchChild{
@@ -214,6 +243,7 @@ func (rr *reqRun) prepareAll(c *cqlclient.Client) error {
 		}
 		rr.ids[stmt] = pr.PreparedQueryId
 	}
+	rr.ids[prepUnknown] = rr.e.C.PrepareDirect("", prepUnknown)
 	return nil
 }
 
